@@ -395,6 +395,9 @@ inductive Tok
   | enter                                        -- `with es.new_request_context():`
   | exit                                         -- end of that block
   | wire (gap service : Rat) (fails : Bool)      -- client-side work of `gap` s, then a wire request of `service` s
+  | par (streams : List (List (Rat × Bool)))     -- concurrent streams (`asyncio.create_task` each, then `gather`): every stream
+                                                 -- sends its wire requests (service, fails) one after the other, each in its
+                                                 -- own nested request context (composite: `RequestTiming` per stream item)
 deriving Repr, DecidableEq
 
 structure PState where
@@ -420,6 +423,21 @@ def unwind : List RCtx → RCtx
 /-- `await asyncio.sleep(d)` / synchronous work of `d` seconds on the virtual clock -/
 def sleep (r : Rat → Rat) (now d : Rat) : Rat := if d > 0 then r (now + d) else now
 
+/-- one stream in its own asyncio task, started at `t`: (clock when the task ends, endpoint log, failed) -/
+def runStream (r : Rat → Rat) : List (Rat × Bool) → Rat → List (Rat × Rat) → Rat × List (Rat × Rat) × Bool
+  | [], t, log => (t, log, false)
+  | (service, fails) :: ws, t, log =>
+    let t2 := sleep r t service
+    if fails then (t2, log ++ [(t, t2)], true) else runStream r ws t2 (log ++ [(t, t2)])
+
+/-- A child task inherits the context variable's *value*, a reference to the parent's context dict: the nested context of a
+    stream's wire request (sent at `x.1`, response at `x.2`) exits into that very dict.  The updates are min/max updates, so
+    they commute: the model applies them stream by stream. -/
+def exitAllInto (top : RCtx) (log : List (Rat × Rat)) : RCtx :=
+  log.foldl (fun c x => ((RCtx.empty.onStart x.1).onEnd x.2).exitInto c) top
+
+def ratMax (a b : Rat) : Rat := if a < b then b else a
+
 def runProg (r : Rat → Rat) : List Tok → PState → PState
   | [], s => s
   | .enter :: ts, s => runProg r ts { s with stack := RCtx.empty :: s.stack }
@@ -432,6 +450,15 @@ def runProg (r : Rat → Rat) : List Tok → PState → PState
     let t2 := sleep r t1 service
     let s' : PState := { now := t2, stack := onTop (fun c => (c.onStart t1).onEnd t2) s.stack, log := s.log ++ [(t1, t2)], failed := fails }
     if fails then s' else runProg r ts s'
+  | .par streams :: ts, s =>
+    -- all streams start now (tasks are created back to back and first run when the parent awaits `gather`);
+    -- the parent goes on when the last one has finished
+    let rs := streams.map (fun ws => runStream r ws s.now [])
+    let tEnd := rs.foldl (fun m x => ratMax m x.1) s.now
+    let newLog := rs.flatMap (fun x => x.2.1)
+    let failed := rs.any (fun x => x.2.2)
+    let s' : PState := { now := tEnd, stack := onTop (fun c => exitAllInto c newLog) s.stack, log := s.log ++ newLog, failed := failed }
+    if failed then s' else runProg r ts s'
 
 /-- nesting is balanced (what Python's `with` guarantees) -/
 def balanced : List Tok → Nat → Bool
@@ -439,6 +466,7 @@ def balanced : List Tok → Nat → Bool
   | .enter :: ts, d => balanced ts (d + 1)
   | .exit :: ts, d => d != 0 && balanced ts (d - 1)
   | .wire _ _ _ :: ts, d => balanced ts d
+  | .par _ :: ts, d => balanced ts d
 
 /-! ## the executor -/
 
